@@ -60,9 +60,9 @@ def gen_mods(rnd):
         k = rnd.randint(0, 4)
         if k == 0:
             op = rnd.choice(['>', '>=', '<', '<=', '=', '='])
-            mods.append(('amount', op, rnd.choice(['100', '12', '99.99', '0.5', '500', '50', '12.5', '12345.67', '10000.25', '250000.5', '1234567.89', '15250.45'])))
+            mods.append(('amount', op, rnd.choice(['100', '12', '99.99', '0.5', '500', '50', '12.5', '12345.67', '10000.25', '250000.5', '1234567.89', '15250.45', '0', '0', '5'])))
         elif k == 1:
-            mods.append(('amount', ':', rnd.choice(['10', '0.5', '12', '10000.25']), rnd.choice(['100', '99.99', '500', '20000.75', '1234567.89'])))
+            mods.append(('amount', ':', rnd.choice(['10', '0.5', '12', '10000.25', '0', '0']), rnd.choice(['100', '99.99', '500', '20000.75', '1234567.89'])))
         elif k == 2:
             mods.append(('date', '=', rnd.choice(['2025-01-15', '2024-12-31', '2024-02-29'])))
         elif k == 3:
@@ -106,7 +106,7 @@ def gen_file(rnd):
 
 def boundary_txns(rnd, rules, n):
     out = []
-    amounts, dates = [12.0, -99.99, 0.5, 100, 500], [date(2025, 1, 15), date(2024, 12, 31), date(2025, 2, 28), date(2025, 1, 1), date(2024, 2, 29),
+    amounts, dates = [12.0, -99.99, 0.5, 100, 500, 0.0, 0.0, -0.0, 0.004], [date(2025, 1, 15), date(2024, 12, 31), date(2025, 2, 28), date(2025, 1, 1), date(2024, 2, 29),
                                                       date(2025, 1, 31), date(2025, 2, 1), date(2025, 6, 30), date(2025, 12, 31), None]
     for r in rules:
         for m in r.mods:
